@@ -1878,7 +1878,7 @@ namespace xsimd
         {
             if (std::is_signed<T>::value)
             {
-                return sadd(self, -other);
+                return ssub(self, other, generic {}); // sadd(self, -other) is wrong for other == min
             }
             else
             {
